@@ -9,16 +9,23 @@ HARNESS_BIN = "c07"
 NCASES = {"quick": 7000, "thorough": 120000}
 CASE_TIMEOUT = {"quick": 30, "thorough": 120}
 
-LEVEL_TEXT = ("Machine-checked Coq theorems for all inputs: the digit specification is the unique positional representation; the "
-              "as-is models of the printers (per-word extraction, double-word split, medium groups, divide-and-conquer with cached "
-              "squared radix powers) and of the parsers (per-word Horner, 256-group chunks, divide-and-conquer, power-of-two bit "
-              "packing across words) equal the specification; parse(print(n)) = n under any sign/underscore/case/leading-zero "
-              "decoration and every accepted text is in the grammar; the layout routine equals core::fmt's pad_integral for every "
-              "flag combination; byte (two's complement) and bit-chunk encodings are mutually inverse. The models are tied to the "
-              "Rust code by a correspondence run against the OCaml extraction of the same definitions.")
+LEVEL_TEXT = ("Machine-checked Coq theorems for all inputs (no size bound, every even word size holding radix 36, in particular 16/32/64): "
+              "the digit specification is the unique positional representation; the radix table (digits/range per word, estimate-then-"
+              "multiply) is the largest power fitting a word; the as-is models of the printers (per-word extraction, double-word split, "
+              "medium groups, divide-and-conquer with cached squared radix powers; power-of-two shift/mask and the word walk with digits "
+              "straddling two words) and of the parsers (per-word Horner, 256-group chunks, divide-and-conquer; power-of-two bit packing "
+              "across words; sign / 0b 0o 0x front ends) equal the specification, value and error kind; format_prepared equals "
+              "core::fmt's pad_integral for every flag combination, so the whole Display/Binary/Octal/LowerHex/UpperHex/in_radix text "
+              "equals fmt_spec ('-' + magnitude for negatives); every accepted text is in the grammar and means its positional value, "
+              "the rest is NoDigits/InvalidDigit; print-then-parse is the identity under any underscore/case/leading-zero decoration; "
+              "to/from_le_bytes, two's complement to/from_signed bytes and to/from_chunks models equal their specifications and are "
+              "mutually inverse on ALL integers. The models are tied to the Rust code by a correspondence run against the OCaml "
+              "extraction of the same definitions.")
 LEVEL_NOTE = ("Trusted: Coq kernel, extraction incl. FastZ.v directives, zarith, the Rust harness (it also lays the same digits out "
               "with the real Formatter::pad_integral and with u128/i128 formatting). Word loops below the value level "
-              "(fast_div_by_word_in_place, mul_word_in_place_with_carry, SWAR digit->ASCII) are modelled by their meaning on Z.")
+              "(fast_div_by_word_in_place, mul_word_in_place_with_carry, div_rem of the D&C printer, SWAR digit->ASCII, the shift/add "
+              "word loops of chunks_to_words) are modelled by their meaning on Z; big-endian variants are the reversed little-endian "
+              "ones. Pre-repair models of F01-F03 are refuted on their witnesses (C07_F0x_refuted).")
 TECHNIQUE = "Coq proof (model = spec for all inputs) + extracted-spec correspondence run"
 RULE = ("cases = {format, parse, bytes, chunks} x all 35 radices (+2 invalid) x values/texts whose digit count sits at -1/0/+1 of: "
         "digits_per_word, 2 words, the printer's medium/large switch (16 groups), every doubling of the cached radix powers, the "
@@ -32,7 +39,7 @@ EXPLANATION = ("Theorems in coq/props/C07.v; every implementation answer is judg
                "(digits_spec, pad_integral_spec, from_str_*_spec, le/be(_signed)_value, to/from_chunks_spec); the extracted as-is "
                "models must give the same answers (model_fidelity).")
 TRUSTED_BASE = [
-    "Coq 8.16.1 kernel (coqc); vm_compute only for the finite radix table 2..36",
+    "Coq 8.16.1 kernel (coqc); vm_compute only for closed witnesses/examples (finding witnesses, non-vacuity instances)",
     "extraction: ExtrOcamlBasic + ExtrOcamlZBigInt + coq/extract/FastZ.v (Z.lor/log2/pow/... -> zarith)",
     "OCaml 4.13.1 + zarith 1.12, oracle/common.ml, oracle/driver_c07.ml; Rust harness harness/src/bin/c07.rs",
     "core::fmt (format_args!, Formatter flag accessors, pad_integral used as the reference layout), u128/i128 formatting",
@@ -42,7 +49,7 @@ TRUSTED_BASE = [
 ASSUMPTIONS = [
     "UBig::from_words / as_words / IBig::from_parts / as_sign_words transport values faithfully (harness never uses the parser/printer to move values)",
     "texts are valid UTF-8 (the API takes &str); formatter widths stay below 65536 (Rust's limit)",
-    "64-bit words in the correspondence run (the models and theorems are parametric in the word size)",
+    "64-bit words in the correspondence run (the models and theorems are parametric in the word size: any w > 0 with w mod 8 = 0 and 2^w > 36)",
 ]
 
 LETTERS = "0123456789abcdefghijklmnopqrstuvwxyz"
